@@ -151,7 +151,7 @@ fn prepare_step(port0: bool, cids: &[u8], sticky: &[u8]) {
     kani::cover!(f[5] & 0x40 != 0, "ADRACKReq set");
 }
 
-//@h id=prepare_port_n props=C06,C08,C12 tier=quick build=dev-eu868 tbuilds=dev-eu433,dev-in865,dev-as923 cost=120 timeout=1500
+//@h id=prepare_port_n props=C06,C08,C12 tier=quick build=dev-eu868 tbuilds=dev-eu433,dev-in865 cost=120 timeout=1500
 //@bounds arbitrary session with pending answers LinkADRAns, RXParamSetupAns, DevStatusAns, RXTimingSetupAns, DlChannelAns (9 bytes, symbolic payloads), arbitrary configuration under I-dr, FPort 1..=255, payload length 0..=18 with symbolic content, confirmed or not
 //@encodes Session::prepare_buffer, next_lower_datarate, DataFrame::build_into, securityhelpers::*, Uplink::clear_mac_commands(true), RadioBuffer::extend_from_slice
 //@assumes AES/CMAC are uninterpreted functions; payload within the regional maximum (documented precondition of send)
